@@ -480,6 +480,7 @@ def run(ctx):
         reported += 1 if ctx.violation(dict(base, broken="C09.Harness.chk: the verified checker rejects mlr's output (python oracle accepts it)"), found_input=False) else 0
         if reported >= 3:
             break
+    oracle_bad.sort(key=lambda v: len(v.get("input", [])))       # smallest witness of each class first
     seen = {}
     for v in oracle_bad:
         key = (v.get("class"), v.get("law") if v.get("class") == "other" else "")
